@@ -9,7 +9,8 @@ Bit(m, i) == (m \div (2 ^ (i - 1))) % 2 = 1
 Tag(l, p) == IF l = 1 THEN "one:" ELSE "two:"
 PName(p) == CASE p = A -> "a" [] p = DA -> "d/a" [] p = C -> "c" [] p = DC -> "d/c" [] OTHER -> "r"
 \* a-files include "c" by a relative name: resolved in their own directory
-Content(l, p) == IF p \in {A, DA} THEN <<Text(Tag(l, p) \o PName(p) \o "("), Ref(NestedKind, Name(FALSE, <<"c">>)), Text(")")>>
+Content(l, p) == IF p \in {A, DA} THEN (IF NestedKind = "extends" THEN <<Ref("extends", Name(FALSE, <<"c">>)), Text(Tag(l, p) \o PName(p))>>
+                                        ELSE <<Text(Tag(l, p) \o PName(p) \o "("), Ref(NestedKind, Name(FALSE, <<"c">>)), Text(")")>>)
                  ELSE <<Text(Tag(l, p) \o PName(p))>>
 Loader(l, mask, extra) ==
   LET ps == {Paths[i] : i \in {j \in 1..4 : Bit(mask, j)}} IN
